@@ -1,7 +1,7 @@
 (* C01 — Mesh cells tile the region; index<->coordinate maps are mutually inverse.
    This file holds ONLY statements, each closed by [exact] of a lemma proved in proofs/,
    followed by Print Assumptions. *)
-From DF Require Import Prelude Constants_gen Region Mesh C01_axis C01_nd.
+From DF Require Import Prelude Constants_gen Region Mesh C01_axis C01_nd C01_lattice.
 Open Scope Q_scope.
 
 (* centres are pmin + (i + 1/2) * cell, cell = edges / n *)
@@ -67,3 +67,62 @@ Theorem C01_tiling_axis (lo hi : Q) (k : Z) (p : Q) :
     forall j, (0 <= j < k)%Z -> lo + inject_Z j * c <= p -> p < lo + (inject_Z j + 1) * c -> j = i.
 Proof. exact (tiling_axis lo hi k p). Qed.
 Print Assumptions C01_tiling_axis.
+
+(* the cell volumes add up to the region volume: prod n * prod cell == prod edges *)
+Theorem C01_volume_tiling : forall los his ks,
+  Forall2 (fun a b => a < b) los his -> length ks = length los -> Forall (fun k => 0 < k)%Z ks ->
+  inject_Z (zprod ks) * qprod (map3 cell_of los his ks) == qprod (map2 Qminus his los).
+Proof. exact volume_tiling. Qed.
+Print Assumptions C01_volume_tiling.
+
+(* iteration order: prod n indices, first dimension fastest; position i0 + n0*(i1 + n1*(...)) holds index i *)
+Theorem C01_cell_count : forall ns, length (indices_xfast ns) = nprod (nsizes ns).
+Proof. exact indices_xfast_length. Qed.
+Print Assumptions C01_cell_count.
+
+Theorem C01_iteration_order : forall ns i, in_range ns i ->
+  nth (Z.to_nat (ravel_xfast ns i)) (indices_xfast ns) [] = i.
+Proof. exact nth_ravel_xfast. Qed.
+Print Assumptions C01_iteration_order.
+
+Theorem C01_iteration_in_range : forall ns i, Forall (fun k => 0 <= k)%Z ns ->
+  In i (indices_xfast ns) -> in_range ns i.
+Proof. exact indices_xfast_in_range. Qed.
+Print Assumptions C01_iteration_in_range.
+
+(* per-axis lists: the j-th entry of `cells` is the j-th cell centre, of `vertices` the j-th face *)
+Theorem C01_cells_view : forall lo hi k j, lo < hi -> (0 < k)%Z -> (0 <= j < k)%Z ->
+  nth (Z.to_nat j) (cells_axis lo hi k) 0 == i2p1 lo (cell_of lo hi k) j.
+Proof. exact cells_are_centres. Qed.
+Print Assumptions C01_cells_view.
+
+Theorem C01_vertices_view : forall lo hi k j, lo < hi -> (0 < k)%Z -> (0 <= j <= k)%Z ->
+  nth (Z.to_nat j) (vertices_axis lo hi k) 0 == lo + inject_Z j * cell_of lo hi k.
+Proof. exact vertices_are_faces. Qed.
+Print Assumptions C01_vertices_view.
+
+(* mesh by cell size (per axis; the n-d constructor applies these tests to every axis):
+   a whole number of cells is accepted with that count; whatever is accepted is a whole number of
+   cells up to the documented 0.1 % tolerance; remainders strictly inside (tol, cell - tol) are rejected *)
+Theorem C01_by_cell_exact_multiple : forall x e tol, 0 < x -> 0 <= tol -> forall m, (1 <= m)%Z ->
+  e == inject_Z m * x -> bad_rem tol x e = false /\ Qround_half_even (e / x) = m.
+Proof. exact bycell_exact_multiple. Qed.
+Print Assumptions C01_by_cell_exact_multiple.
+
+Theorem C01_by_cell_accept_close : forall x e tol, 0 < x -> 0 <= tol -> 2 * tol < x -> bad_rem tol x e = false ->
+  Qabs (e - inject_Z (Qround_half_even (e / x)) * x) <= tol.
+Proof. exact bycell_accept_close. Qed.
+Print Assumptions C01_by_cell_accept_close.
+
+Theorem C01_by_cell_reject : forall x e tol, tol < Qremainder e x -> Qremainder e x < x - tol ->
+  bad_rem tol x e = true.
+Proof. exact bycell_reject. Qed.
+Print Assumptions C01_by_cell_reject.
+
+(* non-vacuity: a concrete mesh satisfies wf_mesh and exercises the maps *)
+Example C01_nonvacuous :
+  let r := mkRegion [0; (-1)] [4; 2] ["x"%string; "y"%string] ["m"%string; "m"%string] (1 # 1000000000000) in
+  let m := mkMesh r [4; 6]%Z "" [] in
+  wf_mesh m /\ (exists p, index2point m [3; 0]%Z = OK p /\ qlist_eqb p [7 # 2; (-3) # 4] = true) /\
+  point2index m [4; (-1)] = OK [3; 0]%Z.
+Proof. exact nonvacuous_mesh. Qed.
